@@ -588,7 +588,7 @@ def c03(ctx):
                 "declared/undeclared trailer counts x interim responses (domains exported by TLC), written byte-exactly by a scripted raw TCP backend "
                 "behind the real agent+proxy and read by a raw client; distinct = distinct class combinations")
     ctx.assumptions = ["header name case is not preserved by Go and not required", "Date and framing headers (Content-Length, Transfer-Encoding, Trailer) are not compared",
-                       "interim responses must not disturb the final response; whether they are forwarded is not judged", "h2c backends only in the thorough tier"]
+                       "interim responses must not disturb the final response; whether they are forwarded is not judged", "h2c backend: framing classes collapse to with/without Content-Length"]
     thorough = ctx.tier == "thorough"
     http_model(ctx)
     must = [{"declared": 2, "framing": "chunked", "body": "single-small", "status": 200, "method": "GET", "interim": "none"},
@@ -605,6 +605,12 @@ def c03(ctx):
     go_build_harness(ctx)
     events, _ = drive(ctx, "httpresp", cases=cpath, timeout=3000)
     segs, fails = http_validate(ctx, events, "response")
+    # the same abstract responses from an HTTP/2 (h2c) backend, agent started with --force-http2
+    h2cases = cases if thorough else cases[:len(must)] + cases[len(must)::3]
+    h2path = os.path.join(ctx.scratch, "resp_cases_h2c.json")
+    json.dump({"resp": h2cases}, open(h2path, "w"))
+    ev3, _ = drive(ctx, "httpresp", mode="h2c", cases=h2path, timeout=3000)
+    http_validate(ctx, ev3, "response(h2c backend)")
     if thorough:
         ev2, _ = drive(ctx, "httpresp", mode="race", cases=cpath, timeout=3000)
         http_validate(ctx, ev2, "response(-race)")
